@@ -51,8 +51,6 @@ func c27CommandValues() []kit.Value {
 }
 
 func TestVerifC27Command(t *testing.T) {
-	r := ev.Start(t, "C27")
-	defer r.Finish()
 	values := c27CommandValues()
 	codec := &kit.Codec{
 		Name:   "controller.Command",
@@ -83,9 +81,9 @@ func TestVerifC27Command(t *testing.T) {
 		Values:  values,
 		Headers: [][]byte{[]byte(`{`), []byte(`{"version":1,"command":`), []byte(`{"version":1,"command":{"kind":"`), []byte(`{"version":`)},
 	}
-	k := kit.NewRunner(r)
-	k.Run([]*kit.Codec{codec})
-	if r.Replay() == nil {
-		r.Guard("command-menu", len(values) >= 8, "values=%d", len(values))
-	}
+	kit.Main(t, "C27", func() []*kit.Codec { return []*kit.Codec{codec} }, func(r *ev.R, replaying bool) {
+		if !replaying {
+			r.Guard("command-menu", len(values) >= 8, "values=%d", len(values))
+		}
+	})
 }
